@@ -1173,9 +1173,9 @@ def _call(f, *a, **k):
         return None, _exc(e)
 
 
-INT_SCALARS = ["int16", "uint16", "int32", "uint32", "int64", "uint64", "intp"]
-# numpy.uint8 / numpy.int8 indices: zernIndex(numpy.uint8(36)) of the unchanged library returns [2, 32] with the
-# NumPy of the venv (8 * (j - 1) is evaluated in the dtype of j) - reported, left out until it is triaged
+INT_SCALARS = ["uint8", "int8", "int16", "uint16", "int32", "uint32", "int64", "uint64", "intp"]
+# (8-bit indices included since the repair a93c672 of /repo: zernIndex(numpy.uint8(36)) had returned [2, 32] -
+#  8 * (j - 1) was evaluated in the dtype of j - and int8 raised from j = 17)
 
 
 def _spellings(o, N):
@@ -1186,7 +1186,7 @@ def _spellings(o, N):
         for dt in INT_SCALARS:
             ty = numpy.dtype(dt).type
             bad = []
-            for j in range(1, 232):
+            for j in range(1, min(232, int(numpy.iinfo(dt).max) + 1)):
                 r, exc = _call(z.zernIndex, ty(j))
                 o.stat("lib_calls", 1)
                 try:
@@ -1204,7 +1204,7 @@ def _spellings(o, N):
             for J in (1, 5, 36):
                 want = numpy.asarray(z.zernikeArray(J, N, norm=norm), dtype=float)
                 o.stat("lib_calls", 1)
-                spell = [(dt, numpy.dtype(dt).type(J), True) for dt in ["uint8", "int8"] + INT_SCALARS]
+                spell = [(dt, numpy.dtype(dt).type(J), True) for dt in INT_SCALARS]
                 spell += [("float", float(J), False), ("float64", numpy.float64(J), False),
                           ("0-d array", numpy.array(J), False)]
                 for name, arg, required in spell:
@@ -1222,7 +1222,7 @@ def _spellings(o, N):
             for L in ([1], [4], [36], [2, 3, 4], [11, 7, 36], [5, 5, 2, 29]):
                 want = numpy.asarray(z.zernikeArray(L, N, norm=norm), dtype=float)
                 o.stat("lib_calls", 1)
-                spell = [(dt, numpy.array(L, dtype=dt)) for dt in INT_SCALARS]
+                spell = [(dt, numpy.array(L, dtype=dt)) for dt in INT_SCALARS if max(L) <= numpy.iinfo(dt).max]
                 ro = numpy.array(L)
                 ro.flags.writeable = False
                 spell += [("read_only", ro), ("tuple", tuple(L)), ("list_of_int64", [numpy.int64(j) for j in L]),
